@@ -1,85 +1,3 @@
-//! `rt gen <stream> <tier> <seed>`  -> request lines on stdout
-//! `rt exec [--oracle FILE]`        -> reads request lines on stdin, one answer line each on stdout
-//!
-//! Verbs and streams are provided by the modules registered in `MODULES`; each module answers the
-//! verbs it knows (`exec` returns None otherwise) and generates the streams it knows (`gen` returns false).
-mod gen;
-mod idl;
-mod pb;
-mod thrift;
-mod thrift2;
-mod thrift3;
-mod thrift_rt;
-mod val;
-
-use std::io::{BufRead, Write};
-
-use val::*;
-
-pub struct Oracle { pub fails: Vec<String> }
-impl Oracle { pub fn fail(&mut self, props: &str, why: String) { self.fails.push(format!("{}\t{}", props, why.replace(['\n', '\t'], " "))); } }
-
-type ExecFn = fn(&str, &[Sexp], &mut Oracle) -> Option<String>;
-type GenFn = fn(&str, &str, u64, &mut dyn Write) -> bool;
-const MODULES: &[(ExecFn, GenFn)] = &[
-    (thrift_rt::exec, thrift_rt::gen),
-    (thrift2::exec, thrift2::gen),
-    (thrift3::exec, thrift3::gen),
-    (pb::exec, pb::gen),
-    (idl::exec, idl::gen),
-];
-
-fn exec_line(line: &str, o: &mut Oracle) -> String {
-    let Some(items) = Sexp::parse_line(line) else { return "bad-request".into() };
-    let Some(verb) = items.first().and_then(|x| x.atom()) else { return "bad-request".into() };
-    for (e, _) in MODULES { if let Some(a) = e(verb, &items, o) { return a; } }
-    "bad-request".into()
-}
-
-fn gen_stream(stream: &str, tier: &str, seed: u64, out: &mut dyn Write) {
-    for (_, g) in MODULES { if g(stream, tier, seed, out) { return; } }
-    eprintln!("unknown stream {}", stream);
-    std::process::exit(2);
-}
-
 fn main() {
-    let args: Vec<String> = std::env::args().collect();
-    match args.get(1).map(|s| s.as_str()) {
-        Some("gen") => {
-            let seed = args.get(4).and_then(|s| s.parse().ok()).unwrap_or(0);
-            let so = std::io::stdout();
-            let mut w = std::io::BufWriter::new(so.lock());
-            gen_stream(&args[2], &args[3], seed, &mut w);
-        }
-        Some("exec") => {
-            let oracle_path = args.iter().position(|a| a == "--oracle").map(|i| args[i + 1].clone());
-            std::panic::set_hook(Box::new(|_| {}));
-            let child = std::thread::Builder::new().stack_size(512 << 20).spawn(move || {
-                let stdin = std::io::stdin();
-                let so = std::io::stdout();
-                let mut w = std::io::BufWriter::new(so.lock());
-                let mut ofile = oracle_path.map(|p| std::io::BufWriter::new(std::fs::File::create(p).expect("oracle file")));
-                for (i, line) in stdin.lock().lines().enumerate() {
-                    let line = line.expect("stdin");
-                    let line = line.trim();
-                    if line.is_empty() || line.starts_with('#') { let _ = writeln!(w, ""); continue; }
-                    let mut o = Oracle { fails: vec![] };
-                    let ans = match std::panic::catch_unwind(std::panic::AssertUnwindSafe(|| exec_line(line, &mut o))) {
-                        Ok(a) => a,
-                        Err(p) => {
-                            let msg = p.downcast_ref::<String>().cloned().or_else(|| p.downcast_ref::<&str>().map(|s| s.to_string())).unwrap_or_default();
-                            o.fail("PANIC", msg.replace('\n', " "));
-                            "panic".into()
-                        }
-                    };
-                    let _ = writeln!(w, "{}", ans);
-                    if let Some(f) = ofile.as_mut() { for x in &o.fails { let _ = writeln!(f, "{}\t{}", i + 1, x); } }
-                }
-                let _ = w.flush();
-                if let Some(mut f) = ofile { let _ = f.flush(); }
-            }).unwrap();
-            child.join().unwrap();
-        }
-        _ => { eprintln!("usage: rt gen <stream> <tier> <seed> | rt exec [--oracle FILE]"); std::process::exit(2); }
-    }
+    rt::run_main(rt::MODULES);
 }
